@@ -195,6 +195,15 @@ func reproduces(v Violation, log []string) bool {
 			return true
 		}
 	}
+	// The real code fails on these inputs, though at another assertion than the one the engine
+	// stopped at (the engine assumes a failed assertion away and may never reach the later one;
+	// e.g. a self-copy is a write for the monitor but no change natively, while the aliasing it
+	// creates fails the next assertion): a native failure is a real failure of the property.
+	for _, l := range log {
+		if strings.HasPrefix(l, "ASSERT-FAIL ") || strings.HasPrefix(l, "PANIC ") {
+			return true
+		}
+	}
 	return false
 }
 
@@ -432,6 +441,19 @@ func runProperty(prop, tier string, workers int) int {
 		if err != nil {
 			inconclusive = append(inconclusive, "counterexample replay: "+err.Error())
 			continue
+		}
+		if prop == "C11" {
+			// the race detector reports one pair of stacks once per process: cases that share a
+			// process with an earlier report of the same race are replayed on their own
+			redo := 0
+			for k, i := range idxs {
+				if redo < 8 && !reproduces(cands[i].v, logs[k]) {
+					redo++
+					if l1, e1 := nativeReplayOpt(P, pkg, cases[k:k+1], true); e1 == nil {
+						logs[k] = l1[0]
+					}
+				}
+			}
 		}
 		for k, i := range idxs {
 			v := cands[i].v
